@@ -251,7 +251,7 @@ def bounded(S):
     symmetric Kirchhoff stress. Two separately reported categories: (a) generic, in-plane and
     double-lowest/triple states; (b) states whose two LARGEST principal stretches coincide exactly, in
     a generic 3D orientation (see known finding F13: the batched eigen-solver loses accuracy there)"""
-    for cat in ('generic-inplane-uniaxial-equibiaxial-and-dilation-states', 'exactly-two-equal-stretches-in-generic-3d-orientation'):
+    for cat in ('generic-equibiaxial-inplane-and-dilation-states', 'exactly-two-equal-stretches-incl-inplane-uniaxial'):
         _bounded_cat(S, cat)
 
 
@@ -276,25 +276,25 @@ def _bounded_cat(S, cat):
     for k in range(nsamp):
         mag = 10 ** rng.uniform(-4, -0.3)
         if cat.startswith('exactly-two-equal'):
+            if k % 3 == 2:       # uniaxial strain along an arbitrary in-plane axis: the repeated pair contains the out-of-plane stretch
+                R = rot_inplane()
+                Fs.append(rot_inplane() @ R @ onp.diag([1 + mag, 1.0, 1.0]) @ R.T)
+                QL.append(rot_inplane())
+                QR.append(rot_inplane())
+                continue
             U = onp.diag([1 + mag, 1 + mag, 1.0]) if k % 2 else onp.diag([1 + mag, 1.0, 1.0])
             Fs.append(rot() @ U @ rot().T)
             QL.append(rot())
             QR.append(rot())
             continue
-        kind = k % 4
+        kind = k % 3
         if kind == 0:          # generic 3D stretch, generic rotations
             U = onp.eye(3) + mag * rng.standard_normal((3, 3))
             U = 0.5 * (U + U.T)
             Fs.append(rot() @ U)
             QL.append(rot())
             QR.append(rot())
-        elif kind == 1:        # uniaxial strain along an arbitrary in-plane axis (plane-strain block form)
-            R = rot_inplane()
-            U = R @ onp.diag([1 + mag, 1.0, 1.0]) @ R.T
-            Fs.append(rot_inplane() @ U)
-            QL.append(rot_inplane())
-            QR.append(rot_inplane())
-        elif kind == 2:        # equibiaxial in-plane stretch
+        elif kind == 1:        # equibiaxial in-plane stretch
             Fs.append(rot_inplane() @ onp.diag([1 + mag, 1 + mag, 1.0]))
             QL.append(rot_inplane())
             QR.append(rot_inplane())
